@@ -62,6 +62,14 @@ class BoundMethod:
         self.name = name or getattr(func, "__name__", "?")
 
 
+class SuperProxy:
+    """zero-argument super(): attribute lookup continues after the defining class in the MRO"""
+
+    def __init__(self, obj, rest):
+        self.obj = obj
+        self.rest = rest
+
+
 class SymMethod:
     """A method of a symbolic (or builtin-typed) receiver, resolved by name."""
 
@@ -110,7 +118,10 @@ class FnInfo:
 
     def __init__(self, fn):
         self.fn = fn
-        src = inspect.getsource(fn)
+        try:
+            src = inspect.getsource(fn)
+        except (OSError, TypeError) as e:
+            raise Unsupported(f"no source for {getattr(fn, '__qualname__', fn)!r}: {e}")
         self.file = inspect.getsourcefile(fn)
         lines, self.lineno = inspect.getsourcelines(fn)
         self.end_lineno = self.lineno + len(lines) - 1
@@ -240,6 +251,7 @@ class Interp:
         self.spec = 0  # 0 = code mode; +1 goal polarity; -1 hypothesis polarity
         self.depth = 0
         self.cur_frame = None
+        self.frame_stack = []
         self.ghost = {}  # ghost values visible to clauses (external clock readings, ...)
         self.ghost_clock = []
         self.functions_seen = {}  # qualname -> FnInfo (for evidence)
@@ -334,12 +346,14 @@ class Interp:
         saved_frame = self.cur_frame
         if self.depth == 1:
             self.cur_frame = frame
+        self.frame_stack.append(frame)
         try:
             self.exec_block(info.body, frame)
             return None
         except _Return as r:
             return r.value
         finally:
+            self.frame_stack.pop()
             self.depth -= 1
             self.cur_frame = saved_frame
 
